@@ -515,4 +515,10 @@ def build_extra():
                  "completion callbacks on the two initial events; callbacks themselves post nothing" % BUDGET)
     C.assume("process_event_queue is explored on every posting tree up to the stated bound by symbolic execution of "
              "the real loop (deques as concrete lists)")
-    return [C]
+    # re-entrancy: the only callers that drain the queue synchronously are loop callbacks; DelayManager.run_now may
+    # be called from inside a handler and therefore must NOT drain (C13's contract set, restricted)
+    from . import C13
+    c13 = C13.build()
+    c13.pid = "C01c"
+    c13.only_verify = ["DelayManager.run_now", "DelayManager._process_delay_callback", "DelayManager.add"]
+    return [C, c13]
